@@ -10,6 +10,7 @@ import (
 
 	"github.com/dtn7/dtn7-go/pkg/bpv7"
 	"github.com/dtn7/dtn7-go/pkg/cla"
+	"github.com/dtn7/dtn7-go/pkg/verifhook"
 )
 
 // EpidemicRouting is an implementation of a Algorithm and behaves in a
@@ -180,6 +181,7 @@ func (er *EpidemicRouting) ReportFailure(bp BundleDescriptor, sender cla.Converg
 			break
 		}
 	}
+	verifhook.At("routing.epidemic.reportfailure.rmw")
 
 	bi.Properties["routing/epidemic/sent"] = sentEids
 	if err := er.c.store.Update(bi); err != nil {
